@@ -22,5 +22,13 @@ def handle (cmd : String) (args : List String) : Option String :=
       let reqs := required r.block
       some ("OK " ++ ";".intercalate (reqs.map fun x =>
         s!"q={bytesToHex x.qname},c={x.cls},L={"|".intercalate (x.locs.map locStr)},m={b01 x.colon},f={b01 x.fn},a={b01 x.byAssign},s={b01 x.shadowed}"))
+  | "funcsym", [vs, fs] =>
+    -- `funcsym <sl:sc:el:ec of the name> <sl:sc:el:ec of the function>` → the symbol range (FuncSymbolLoc)
+    let p := fun (t : String) => match (t.splitOn ":").map String.toInt? with
+      | [some a, some b, some c, some d] => some (⟨a, b, c, d⟩ : Loc)
+      | _ => none
+    match p vs, p fs with
+    | some v, some f => let r := funcSymbolLoc v f; some s!"{r.sl}:{r.sc}:{r.el}:{r.ec}"
+    | _, _ => some "bad-op"
   | _, _ => none
 end LuaHelper.OutlineOps
